@@ -390,8 +390,11 @@ def go_stubs(forms, outdir, jumps=()):
         s.append("// %s" % ast)
         s.append("TEXT \u00b7form%d(SB), NOSPLIT, $0-8" % n)
         s.append("\tMOVQ st+0(FP), R15")
+        s.append("\tCMPB 356(R15), $0 // State.AVX: the YMM file exists on this CPU")
+        s.append("\tJEQ  loaded")
         for k in range(6):
             s.append("\tVMOVDQU %d(R15), Y%d" % (160 + 32 * k, k + 1))
+        s.append("loaded:")
         for k in range(3):
             s.append("\tMOVOU %d(R15), X%d" % (96 + 16 * k, k))
         for k, r in enumerate(GPRS):
@@ -404,24 +407,33 @@ def go_stubs(forms, outdir, jumps=()):
             s.append("\tMOVQ %s, %d(R15)" % (r, 8 * k))
         for k in range(3):
             s.append("\tMOVOU X%d, %d(R15)" % (k, 96 + 16 * k))
+        s.append("\tCMPB 356(R15), $0")
+        s.append("\tJEQ  stored")
         for k in range(6):
             s.append("\tVMOVDQU Y%d, %d(R15)" % (k + 1, 160 + 32 * k))
         s.append("\tVZEROUPPER")
+        s.append("stored:")
         s.append("\tRET")
         s.append("")
     for n, (sast, jast, stxt, jm) in enumerate(jumps):
         s.append("// %s ; %s" % (sast, jast))
         s.append("TEXT \u00b7jump%d(SB), NOSPLIT, $0-8" % n)
         s.append("\tMOVQ st+0(FP), R15")
+        s.append("\tCMPB 356(R15), $0")
+        s.append("\tJEQ  loaded")
         for k in range(6):
             s.append("\tVMOVDQU %d(R15), Y%d" % (160 + 32 * k, k + 1))
+        s.append("loaded:")
         for k in range(3):
             s.append("\tMOVOU %d(R15), X%d" % (96 + 16 * k, k))
         for k, r in enumerate(GPRS):
             s.append("\tMOVQ %d(R15), %s" % (8 * k, r))
         s.append("\t" + stxt)
         s.append("\t%s 355(R15)" % SETCC[jm])
+        s.append("\tCMPB 356(R15), $0")
+        s.append("\tJEQ  done")
         s.append("\tVZEROUPPER")
+        s.append("done:")
         s.append("\tRET")
         s.append("")
     g = ["// Code generated by /verif/tools/asmfacts.py from the repository's .s files. DO NOT EDIT.",
